@@ -3,7 +3,7 @@ META = {
     "level": "exploration",
     "technique": "history + executable model: seeded add/renew/cancel/write/allocate histories on the real StorageServer and share-file classes compared with a lease-table model; raw container bytes scanned for every secret any client presented",
     "text": "Drives the real StorageServer.add_lease / renew_lease / allocate_buckets / slot_testv_and_readv_and_writev (and FoolscapStorageServer.remote_add_lease/remote_renew_lease, ShareFile/MutableShareFile.renew_lease/cancel_lease) under a forward-moving virtual clock on one immutable and one mutable storage index with 1..3 shares each, v1 and v2 containers mixed, up to 12 leases per share (mutable extra-lease area), data writes and container growth in between. After every operation each share's leases (through get_leases() and through an independent parser of the raw file) are compared with a lease table (owner, renew-secret match, cancel-secret match, expiry); renewing with a secret unknown to the bucket must raise and leave every file byte-identical; expiry never decreases (shorter renewal duration, explicit earlier time); the raw bytes of every v2 container are scanned for every renew/cancel secret ever presented.",
-    "note": "Trusts the lease-table model and the independent parser; renew_lease with a secret known to only some shares of the bucket is generated but not judged (the statement leaves it open); cancel is internal API and only keeps the model in step (a disagreement there ends the case as an observation).",
+    "note": "Trusts the lease-table model and the independent parser; renew_lease with a secret known to only some shares of the bucket is generated but not judged (the statement leaves it open); cancel_lease (the share-file call the lease crawler makes) is a judged history step for every OTHER lease (they must stay visible, renewable, never duplicated, incl. leases stored behind the blanked slot of a mutable container); only what happens to the cancelled lease itself is left as an observation.",
 }
 LEVEL = "exploration"
 BUDGET = {"quick": 40, "thorough": 240}
@@ -38,13 +38,15 @@ def run(ck):
             ck.case("history", key=("raised", ci), nontrivial=False)
         finally:
             case.close()
-    for m in ("lease-table", "raw-lease-records", "unknown-renew-rejected", "no-cleartext-in-v2", "no-backdating"):
+    for m in ("lease-table", "raw-lease-records", "unknown-renew-rejected", "no-cleartext-in-v2", "no-backdating",
+              "leases-survive-cancel"):
         ck.require_monitor(m)
     for r in ("renew-known-via-add_lease", "add-fresh", "renew-unknown", "backdate-attempt-shorter-duration",
               "backdate-attempt-explicit-time", "mutable-leases>4", "write-with-leases>4", "growth-with-extra-leases",
               "immutable-v1", "immutable-v2", "mutable-v1", "mutable-v2", "v1-cleartext-seen",
               "allocate-renews-existing", "renew_lease-known", "foolscap-wrapper", "cancel",
-              "cancel-secret-as-renew-secret"):
+              "cancel-secret-as-renew-secret", "mutable-cancel-leaves-hole-below-leases",
+              "renew-or-add-after-hole"):
         ck.require_reach(r)
     ck.exhaustive = False
 
@@ -200,6 +202,8 @@ def _one_case(ck, rng, case, ci):
                 cs = secret()          # same renew secret, different cancel secret: still a renewal
             ck.hit("renew-known-via-add_lease")
             flags.add("renew-known")
+            if kind == "mu" and "hole" in flags:
+                ck.hit("renew-or-add-after-hole")
         else:
             rs, cs = secret(), secret()
             if ks and rng.random() < .15:
@@ -263,6 +267,8 @@ def _one_case(ck, rng, case, ci):
                      % (type(exc).__name__, sorted(k for k in post if post[k] != pre.get(k))))
         elif len(holders) == len(mine):
             ck.hit("renew_lease-known")
+            if kind == "mu" and "hole" in flags:
+                ck.hit("renew-or-add-after-hole")
             if exc is not None:
                 viol("known-renew-raises", "renew_lease with a secret every share knows raised %s: %s" % (type(exc).__name__, exc))
             for v in mine:
@@ -367,20 +373,41 @@ def _one_case(ck, rng, case, ci):
             shares[("im", sh)] = {"v": 2, "leases": [{"owner": 0, "renew": rs, "cancel": cs, "expiry": int(t0 + RENEW)}]}
 
     def op_cancel():
+        # The call the lease crawler makes (ShareFile/MutableShareFile.cancel_lease).  What cancel does to
+        # the cancelled lease is not in the statement; what it does to every OTHER lease is: they must stay
+        # visible, renewable and never get duplicated -- check_all() and the following ops judge that.
         cands = [(k, v) for k, v in sorted(shares.items()) if len(v["leases"]) >= 2]
         if not cands:
             return op_add_lease()
-        (kind, sh), v = rng.choice(cands)
-        l = rng.choice(v["leases"])
-        history.append(("file.cancel_lease", kind, sh, l["renew"][:3].hex()))
+        mu = [c for c in cands if c[0][0] == "mu"]
+        (kind, sh), v = rng.choice(mu if mu and rng.random() < .7 else cands)
+        # bias towards a lease that is not the most recently added one (a hole below other leases)
+        l = rng.choice(v["leases"][:-1]) if rng.random() < .7 else rng.choice(v["leases"])
+        history.append(("file.cancel_lease", kind, sh, l["renew"][:3].hex(), "%d leases" % len(v["leases"])))
         ck.hit("cancel")
+        before = raw(kind, sh)
         sf = ShareFile(path(kind, sh)) if kind == "im" else MutableShareFile(path(kind, sh), ss)
         sf.cancel_lease(l["cancel"])
         v["leases"] = [x for x in v["leases"] if x["cancel"] != l["cancel"]]
-        # internal API, not part of the statement: only keep the model in step
-        if len(real_leases(kind, sh)) != len(v["leases"]):
-            ck.observe("cancel-disagrees-with-model")
+        flags.add("cancelled")
+        if kind == "mu":
+            after = raw("mu", sh)
+            occ_b = [i for i, sl in enumerate(before.slots) if sl and sl["owner"]]
+            occ_a = [i for i, sl in enumerate(after.slots) if sl and sl["owner"]]
+            gone = [i for i in occ_b if i not in occ_a]
+            if gone and occ_a and min(gone) < max(occ_a):
+                ck.hit("mutable-cancel-leaves-hole-below-leases")
+                flags.add("hole")
+        real = real_leases(kind, sh)
+        if any(x.is_renew_secret(l["renew"]) for x in real):
+            ck.observe("cancelled-lease-still-present")      # cancel itself is not judged
             raise _Stop()
+        ck.mon("leases-survive-cancel")
+        hidden = [w["renew"][:4].hex() for w in v["leases"] if not any(x.is_renew_secret(w["renew"]) for x in real)]
+        if hidden:
+            viol("lease-lost-after-cancel", "%s share %d (v%d): cancelling one lease made %d other lease(s) invisible "
+                 "to get_leases(): %r; %d visible, %d expected"
+                 % (kind, sh, v["v"], len(hidden), hidden, len(real), len(v["leases"])))
 
     def op_advance():
         dt = rng.choice([1, 60, 3600, 86400, 10 * 86400, 40 * 86400])
@@ -388,7 +415,7 @@ def _one_case(ck, rng, case, ci):
         env.reactor.advance(dt)
 
     table = [op_add_lease] * 30 + [op_renew_lease] * 14 + [op_file_renew] * 14 + [op_write] * 18 + \
-            [op_allocate] * 6 + [op_cancel] * 4 + [op_advance] * 14
+            [op_allocate] * 6 + [op_cancel] * 9 + [op_advance] * 12
     try:
         check_all("setup")
         for _ in range(rng.randint(40, 90)):
@@ -416,3 +443,6 @@ class _Stop(Exception):
 #  8. mutable.py _change_container_size: extra leases truncated on growth   CAUGHT (op-raises-error in get_leases)
 #  9. immutable.py renew_lease: also matches the cancel secret    CAUGHT (unknown-renew-no-error, lease-lost)
 # 10. mutable.py renew_lease: unknown secret renews the first lease before raising   CAUGHT (unknown-renew-changed-files)
+# 11. mutable.py _enumerate_leases: stops at the first empty slot (seeded C25-4; cancel leaves a hole, leases behind it
+#     vanish / get duplicated / cannot be renewed)                                   CAUGHT (lease-lost-after-cancel)
+#     -- was MISSED while cancel disagreements were only an observation; cancel is now a judged step.
